@@ -1,7 +1,183 @@
-//! stub
-use serde_json::Value;
-use crate::engine::Ctx;
-pub const RULE: &str = "";
-pub const ASSUMPTIONS: &[&str] = &[];
-pub fn run(_ctx: &Ctx) {}
-pub fn replay(_part: &str, _case: &Value) -> Result<(), String> { Err("not implemented".into()) }
+//! C20 — port setup always yields 19200 8N1 without flow control, or an error.
+
+use std::time::Duration;
+
+use flipdot_core::{Message, SignBus};
+use flipdot_serial::{configure_port, SerialSignBus};
+use flipdot_testing::Odk;
+use serde::{Deserialize, Serialize};
+use serde_json::{json, Value};
+use serial_core::{BaudRate, CharSize, ErrorKind, FlowControl, Parity, PortSettings, StopBits};
+
+use crate::engine::{catch, par_range, Ctx, Stats};
+use crate::io::port::{PortState, TestPort};
+
+pub const RULE: &str = "the full product of prior port settings representable by PortSettings (11 standard baud rates + BaudOther(0), BaudOther(19200), BaudOther(250000); 4 character sizes; 3 parities; 2 stop-bit settings; 3 flow controls = 1008 combinations) x entry point {configure_port with 4 timeouts, SerialSignBus::try_new, Odk::try_new} x injected failure {none, read_settings, set_baud_rate, write_settings, set_timeout} x 3 error kinds, enumerated exhaustively on an instrumented SerialDevice. Oracle: on success the final settings are exactly 19200/8/N/1/none and a timeout was applied (the caller's value for configure_port, any non-zero value for the constructors); with a failure injected the call returns Err of the injected kind. Non-trivial = the prior settings differ from the target in at least one field, or a failure is injected; distinct by construction";
+pub const ASSUMPTIONS: &[&str] = &["the instrumented SerialDevice (io/port.rs) records settings and timeouts faithfully; serial-core's blanket SerialPort::reconfigure is the code path flipdot uses"];
+
+const BAUDS: [BaudRate; 14] = [
+    BaudRate::Baud110,
+    BaudRate::Baud300,
+    BaudRate::Baud600,
+    BaudRate::Baud1200,
+    BaudRate::Baud2400,
+    BaudRate::Baud4800,
+    BaudRate::Baud9600,
+    BaudRate::Baud19200,
+    BaudRate::Baud38400,
+    BaudRate::Baud57600,
+    BaudRate::Baud115200,
+    BaudRate::BaudOther(0),
+    BaudRate::BaudOther(19200),
+    BaudRate::BaudOther(250000),
+];
+const SIZES: [CharSize; 4] = [CharSize::Bits5, CharSize::Bits6, CharSize::Bits7, CharSize::Bits8];
+const PARITIES: [Parity; 3] = [Parity::ParityNone, Parity::ParityOdd, Parity::ParityEven];
+const STOPS: [StopBits; 2] = [StopBits::Stop1, StopBits::Stop2];
+const FLOWS: [FlowControl; 3] = [FlowControl::FlowNone, FlowControl::FlowSoftware, FlowControl::FlowHardware];
+const KINDS: [ErrorKind; 3] = [ErrorKind::NoDevice, ErrorKind::InvalidInput, ErrorKind::Io(std::io::ErrorKind::PermissionDenied)];
+const TIMEOUTS_MS: [u64; 4] = [1, 250, 5_000, 3_600_000];
+
+#[derive(Serialize, Deserialize, Debug, Clone, PartialEq, Eq)]
+pub struct PortCase {
+    /// indices into the five setting tables
+    pub prior: [usize; 5],
+    /// 0 = configure_port, 1 = SerialSignBus::try_new, 2 = Odk::try_new
+    pub entry: u8,
+    pub timeout_ms: u64,
+    /// 0 none, 1 read_settings, 2 set_baud_rate, 3 write_settings, 4 set_timeout
+    pub fail: u8,
+    pub kind: usize,
+}
+
+struct NullBus;
+impl SignBus for NullBus {
+    fn process_message<'a>(&mut self, _: Message<'_>) -> Result<Option<Message<'a>>, Box<dyn std::error::Error + Send + Sync>> {
+        Ok(None)
+    }
+}
+
+fn target() -> PortSettings {
+    PortSettings {
+        baud_rate: BaudRate::Baud19200,
+        char_size: CharSize::Bits8,
+        parity: Parity::ParityNone,
+        stop_bits: StopBits::Stop1,
+        flow_control: FlowControl::FlowNone,
+    }
+}
+
+pub fn check_port(c: &PortCase, st: &mut Stats) -> Result<(), String> {
+    let prior = PortSettings {
+        baud_rate: BAUDS[c.prior[0] % 14],
+        char_size: SIZES[c.prior[1] % 4],
+        parity: PARITIES[c.prior[2] % 3],
+        stop_bits: STOPS[c.prior[3] % 2],
+        flow_control: FLOWS[c.prior[4] % 3],
+    };
+    let kind = KINDS[c.kind % 3];
+    let mut state = PortState::new(vec![]);
+    state.settings = prior;
+    match c.fail {
+        1 => state.fail_read_settings = Some(kind),
+        2 => state.fail_set_baud = Some(kind),
+        3 => state.fail_write_settings = Some(kind),
+        4 => state.fail_set_timeout = Some(kind),
+        _ => {}
+    }
+    let port = TestPort::with_state(state);
+    let h = port.handle();
+    let timeout = Duration::from_millis(c.timeout_ms);
+    let name = ["configure_port", "SerialSignBus::try_new", "Odk::try_new"][c.entry as usize % 3];
+    let result: Result<(), serial_core::Error> = catch(|| match c.entry % 3 {
+        0 => {
+            let mut p = port;
+            configure_port(&mut p, timeout)
+        }
+        1 => SerialSignBus::try_new(port).map(|_bus| ()),
+        _ => Odk::try_new(port, NullBus).map(|_odk| ()),
+    })
+    .map_err(|p| format!("{name} panicked: {p}"))?;
+    st.eval();
+    let s = h.borrow();
+    if c.fail == 0 {
+        if let Err(e) = result {
+            return Err(format!("{name} failed on a cooperative port with prior settings {prior:?}: {e}"));
+        }
+        if s.settings != target() {
+            return Err(format!(
+                "after {name} the port (prior {prior:?}) is left at {:?}, not 19200/8/N/1/none",
+                s.settings
+            ));
+        }
+        match s.timeouts_set.last() {
+            None => return Err(format!("{name} did not apply a read timeout")),
+            Some(t) => {
+                if c.entry % 3 == 0 && *t != timeout {
+                    return Err(format!("configure_port applied the timeout {t:?} instead of the caller's {timeout:?}"));
+                }
+                if c.entry % 3 != 0 && *t == Duration::from_millis(0) {
+                    return Err(format!("{name} applied a zero timeout"));
+                }
+            }
+        }
+    } else {
+        match result {
+            Ok(()) => {
+                return Err(format!(
+                    "{name} returned Ok although {} failed with {kind:?} (prior {prior:?})",
+                    ["", "read_settings", "set_baud_rate", "write_settings", "set_timeout"][c.fail as usize]
+                ))
+            }
+            Err(e) => {
+                if e.kind() != kind {
+                    return Err(format!("{name} returned error kind {:?} instead of the port's {kind:?}", e.kind()));
+                }
+            }
+        }
+    }
+    if st.want_sample() && prior != target() && c.prior[0] > 10 {
+        st.sample(json!({"prior": format!("{prior:?}"), "entry": name, "timeout_ms": c.timeout_ms, "fail": c.fail, "timeouts_applied": s.timeouts_set.iter().map(|d| d.as_millis() as u64).collect::<Vec<_>>(), "settings_writes": s.settings_writes.len()}));
+    }
+    Ok(())
+}
+
+pub fn run(ctx: &Ctx) {
+    let n_prior = 14 * 4 * 3 * 2 * 3;
+    par_range(ctx, "product", n_prior as u64, |i, st| {
+        let mut k = i as usize;
+        let mut prior = [0usize; 5];
+        for (slot, base) in prior.iter_mut().zip([14usize, 4, 3, 2, 3]) {
+            *slot = k % base;
+            k /= base;
+        }
+        let is_target = BAUDS[prior[0]] == BaudRate::Baud19200 && prior[1] == 3 && prior[2] == 0 && prior[3] == 0 && prior[4] == 0;
+        let mut n = 0u64;
+        let mut nt = 0u64;
+        for entry in 0..3u8 {
+            let timeouts: &[u64] = if entry == 0 { &TIMEOUTS_MS } else { &[0] };
+            for &timeout_ms in timeouts {
+                for fail in 0..5u8 {
+                    let kinds: &[usize] = if fail == 0 { &[0] } else { &[0, 1, 2] };
+                    for &kind in kinds {
+                        let c = PortCase { prior, entry, timeout_ms, fail, kind };
+                        check_port(&c, st).map_err(|m| (serde_json::to_value(&c).unwrap(), m))?;
+                        n += 1;
+                        if !is_target || fail != 0 {
+                            nt += 1;
+                        }
+                    }
+                }
+            }
+        }
+        st.class_n("constructions", n);
+        st.nontrivial_enumerated(nt);
+        Ok(())
+    });
+    ctx.part_done("product", true, json!({"prior_settings": n_prior, "entry_points": 3, "failure_points": 5, "error_kinds": 3, "configure_port_timeouts_ms": TIMEOUTS_MS}));
+}
+
+pub fn replay(_part: &str, case: &Value) -> Result<(), String> {
+    let c: PortCase = serde_json::from_value(case.clone()).map_err(|e| format!("bad case: {e}"))?;
+    check_port(&c, &mut Stats::new())
+}
